@@ -1,15 +1,33 @@
 #!/usr/bin/env python3
-"""tools/dump_norm.py <root> file...  - overwrite the files (under root) with the unparse of their normalised tree"""
-import ast, os, sys
+"""tools/dump_norm.py <root> file...  - overwrite the files (under root) with the unparse of their normalised tree
+(same pipeline and same cross-file information as sa.model.Repo._load)"""
+import ast, os, re, sys
 sys.path.insert(0, os.path.dirname(os.path.dirname(os.path.abspath(__file__))))
 from sa.localnames import recover
 root = sys.argv[1]
+sources = {}
+for d, dirs, files in os.walk(os.path.join(root, "ipv8")):
+    dirs.sort()
+    rel = os.path.relpath(d, root)
+    if rel == os.path.join("ipv8", "test") or rel.startswith(os.path.join("ipv8", "test") + os.sep):
+        dirs[:] = []
+        continue
+    for f in sorted(files):
+        if f.endswith(".py"):
+            sources[os.path.join(rel, f)] = open(os.path.join(d, f), encoding="utf-8").read()
+if os.path.exists(os.path.join(root, "ipv8_service.py")):
+    sources["ipv8_service.py"] = open(os.path.join(root, "ipv8_service.py"), encoding="utf-8").read()
+called = {rel: set(re.findall(r"\b([A-Za-z_]\w*)\s*\(", src)) | set(re.findall(r"\b([A-Za-z_]\w*)\b", " ".join(re.findall(r"import\s+([^\n]+)", src))))
+          for rel, src in sources.items()}
+for rel, src in sources.items():
+    called[rel] |= {"def " + n for n in re.findall(r"^[ \t]+(?:async[ \t]+)?def[ \t]+([A-Za-z_]\w*)", src, re.M)}
 tot = 0
 for rel in sys.argv[2:]:
     p = os.path.join(root, rel)
     src = open(p, encoding="utf-8").read()
     tree = ast.parse(src)
-    n = recover(tree, src, rel)
+    external = set().union(*(v for k, v in called.items() if k != rel))
+    n = recover(tree, src, rel, external)
     tot += n
     if n:
         open(p, "w", encoding="utf-8").write(ast.unparse(tree) + "\n")
